@@ -43,6 +43,7 @@ class Gen:
         self.cond_id = 0
         self.features = set()
         self.victims = set()      # processes that may be interrupted: they never act
+        self.natives = set()      # native usim activities (embedded mode)
 
     def delay(self):
         return self.pool.pop() if self.pool else None
@@ -55,6 +56,8 @@ class Gen:
             d = self.delay()
             if d is None:
                 return None
+            if me in self.natives:
+                return {"op": "native", "d": d}
             op = {"op": "timeout", "d": d}
             if rng.random() < 0.4:
                 op["value"] = "v%r" % d
@@ -89,7 +92,7 @@ class Gen:
             elif r < 0.75:
                 members.append({"ev": "E%d" % rng.randrange(self.n_events)})
             elif r < 0.88:
-                others = [n for n in known if n != me]
+                others = [n for n in known if n != me and n not in self.natives]
                 if others:
                     members.append({"proc": rng.choice(others)})
             elif depth < 1:
@@ -126,9 +129,10 @@ class Gen:
     def process(self, name, known, depth=0):
         rng = self.rng
         ops = []
+        pause = "native" if name in self.natives else "timeout"
         d = self.delay()
         if d is not None:
-            ops.append({"op": "timeout", "d": d})
+            ops.append({"op": pause, "d": d})
         for _ in range(rng.randint(0, 4 if depth == 0 else 2)):
             if name not in self.victims and rng.random() < 0.45 and ops \
                     and ops[-1]["op"] in ("timeout", "native"):
@@ -136,7 +140,7 @@ class Gen:
                 d = self.delay()
                 if d is None:
                     break
-                ops.append({"op": "timeout", "d": d})
+                ops.append({"op": pause, "d": d})
             else:
                 op = self.wait_op(name, known)
                 if op is not None:
@@ -144,12 +148,14 @@ class Gen:
         if ops and ops[-1]["op"] not in ("timeout", "native"):
             d = self.delay()
             if d is not None:
-                ops.append({"op": "timeout", "d": d})
+                ops.append({"op": pause, "d": d})
             else:
                 while ops and ops[-1]["op"] not in ("timeout", "native"):
                     ops.pop()
         spec = {"name": name, "ops": ops}
-        if name not in self.victims and rng.random() < 0.06 and ops:
+        if name in self.natives:
+            spec["native"] = True
+        if name not in self.victims and name not in self.natives and rng.random() < 0.06 and ops:
             self.serial += 1
             self.features.add("failure")
             ops.append({"op": "raise", "serial": self.serial})
@@ -170,12 +176,24 @@ def _generate(rng, tier):
     gen = Gen(rng)
     top = ["p%d" % i for i in range(rng.randint(2, 4))]
     gen.names = list(top)
-    gen.victims = {name for name in top if rng.random() < 0.4}
+    embedded = rng.random() < 0.35
+    if embedded:
+        gen.natives = {name for name in top[1:] if rng.random() < 0.5}
+        gen.features.add("embedded")
+        if gen.natives:
+            gen.features.add("native-activities")
+    gen.victims = {name for name in top if name not in gen.natives and rng.random() < 0.4}
     processes = [gen.process(name, list(top)) for name in top]
     scenario = {"mode": "events", "initial_time": rng.choice([0, 0, 3]),
                 "events": ["E%d" % i for i in range(gen.n_events)], "processes": processes}
+    if embedded:
+        scenario["embedded"] = True
+        # the environment must outlive the native activities that use its events
+        processes.append({"name": "keeper", "ops": [{"op": "timeout", "d": 1024}]})
     r = rng.random()
-    if r < 0.2:
+    if embedded:
+        pass
+    elif r < 0.2:
         # 2**-12 keeps the stop time apart from every sum of the (larger) delays
         scenario["until"] = scenario["initial_time"] + rng.choice([0.75, 1.5, 3, 5, 9, 20, 40]) \
             + 2 ** -12
